@@ -1,9 +1,29 @@
 /-
   C06 — call-frame information is parsed and interpreted per DWARF / .eh_frame rules.
 
-  Property theorems only; helper lemmas are in PyElf/Proofs/CfiTable.lean and
-  PyElf/Proofs/CfiParse.lean.  `T = Spec.cfiTables`, `S = Spec.dwarfStructs cfg`: by
-  Props/TieC06.lean these are the regenerated tables and struct bundles of /repo.
+  Property theorems only; helper lemmas are in PyElf/Proofs/Cfi*.lean.  `T = Spec.cfiTables`,
+  `S = Spec.dwarfStructs cfg`: by Props/TieC06.lean these are the regenerated tables and struct bundles of /repo.
+
+  PROVED (sections of this file, in order):
+    cfa_instr_roundtrip / cfa_instrs_roundtrip   instruction split, all 28 opcodes, any operands
+    entries_exact (+ per-entry forms)            section scan, both section kinds, full strength
+    table_eq_std_*, reg_order_*                  decoded table = DWARF §6.4 reference machine; column order
+    cfi_entries_of_file, eh_cfi_entries_of_file, has_cfi_of_file, cfi_entries_of_file_relocated, file_cfi_table,
+    *_of_view                                    WHOLE FILES: `ELFFile(BytesIO(bytes)).get_dwarf_info().CFI_entries()` /
+                                                 `EH_CFI_entries()` / `has_CFI()` / `has_EH_CFI()` for every well-formed
+                                                 container description (C01 + C11: plain, gABI-compressed, `.zdebug`
+                                                 storage; relocations; any byte string with `Spec.Layout`), glue of
+                                                 dwarfinfo.py modelled in Model/CallFrameFile.lean
+    bad_*                                        MALFORMED sections: exact error class / continuation per class
+    set_loc_*                                    the boundary of the known finding eh-set-loc-encoding as theorems
+
+    entries_exact_prefix, bad_*_after_section    a well-formed section followed by anything / by a malformed entry:
+                                                 `get_entries()` on the whole byte string
+
+  CORRESPONDENCE-ONLY (harness streams raw / bad / setloc): unknown opcode / truncation INSIDE AN FDE at entry level
+  (the instruction-level theorems are entry-kind independent; CIE and FDE-pointer classes are proved at entry and
+  section level); malformed entries BEFORE well-formed ones; an unknown augmentation letter at entry level (proved for the letter loop); an FDE that
+  designates itself (unbounded recursion); arbitrary byte damage.
 -/
 import PyElf.Spec.CFI
 import PyElf.Model.CallFrame
@@ -12,7 +32,16 @@ import PyElf.Proofs.CfiParse
 import PyElf.Proofs.CfiEntries
 import PyElf.Proofs.CfiEhFde
 import PyElf.Proofs.CfiOrder
+import PyElf.Proofs.CfiFile
+import PyElf.Proofs.CfiMalformed
+import PyElf.Proofs.CfiMalformedEntry
+import PyElf.Proofs.CfiMalformedCut
+import PyElf.Proofs.CfiSetLoc
+import PyElf.Proofs.CfiTail
 import PyElf.Props.TieC06
+import PyElf.Props.TieC01
+import PyElf.Props.TieC11
+import PyElf.Props.TieDwarf
 namespace PyElf.Props.C06
 open PyElf PyElf.Spec PyElf.Model PyElf.Proofs.Cfi
 
@@ -300,5 +329,997 @@ theorem regOrder_spec (is : List Cfa) :
 
 example : regOrder [.def_cfa ⟨1, 7⟩ ⟨1, 8⟩, .offset 16 ⟨1, 1⟩, .advance_loc 1, .offset 6 ⟨1, 2⟩, .restore 16,
     .same_value ⟨1, 3⟩, .offset_extended ⟨1, 6⟩ ⟨1, 4⟩] = [16, 6, 3] := by decide
+
+/-! ### whole files: `ELFFile(BytesIO(bytes)).get_dwarf_info().CFI_entries()` / `.EH_CFI_entries()`
+
+  The section theorems above are about the bytes handed to `CallFrameInfo`.  `DWARFInfo.CFI_entries()` hands it
+  the `.debug_frame` descriptor's stream, size and ADDRESS (`EH_CFI_entries()`: the `.eh_frame` one, with
+  `for_eh_frame=True`) and the context structs `DWARFStructs(little_endian, 32, elfclass // 8)`
+  (Model/CallFrameFile.lean: `cfiOfDescr`, `cfiEntries`, `ehCfiEntries`, `fileCfiEntries`, `fileEhCfiEntries`).
+  Composed with C11 (`view_of_file_z`: C01's header / section-table decoding, name lookup, `Section.data()`,
+  gABI and `.zdebug` decompression): for every well-formed container description `d`, ANY byte string carrying it
+  (`Spec.Layout d bytes`), whose logical content under `debug_frame_sec` / `eh_frame_sec` is the Spec encoding of a
+  well-formed CFI description `sec` with the file's byte order and address size at `sec.address = sh_addr`, the
+  accessors on the opened file yield exactly `modelFrom sec 0 sec.entries` — to which `entries_observe`,
+  `entries_table`, `entries_reg_order` apply (`file_cfi_table`, `file_eh_cfi_table` spell the table out).
+  `*_of_view` are the generic forms: they compose with EVERY view theorem of C11 (relocated content
+  `view_of_file_relocated` → `cfi_entries_of_file_relocated`; debug link, supplementary file).
+  `StructsOk P le asz`: the DWARF struct factory gives the Spec's bundles for the file's configuration at both
+  DWARF formats (TieDwarf: the regenerated factory does — `structsOk_generated`). -/
+
+open PyElf.Model.C11 PyElf.Model.C06 PyElf.Proofs.C11 PyElf.Proofs.CfiFile in
+/-- generic: from ANY statement that the view of a byte string is a content (C11) to `CFI_entries()` on it -/
+theorem cfi_entries_of_view {P : Params} {fuel : Nat} {loader : Option Loader} {bytes : Bytes} {relocate followLinks : Bool}
+    {le : Bool} {asz : Nat} {arch : String} {content : Content} {supv : Option View}
+    (hview : dwarfView P fuel loader bytes relocate followLinks
+      = .ok (.mk le asz arch (contentView P.names content) supv))
+    (hk : "debug_frame_sec" ∈ P.names.map (·.1)) (hDS : StructsOk P le asz)
+    (sec : Section) (hwf : sec.wf = true) (heh : sec.eh = false) (hle : sec.le = le) (hasz : sec.asz = asz)
+    (hc : content "debug_frame_sec" = some (encodeSection sec, sec.address))
+    (hsz : (encodeSection sec).length < 2 ^ 63) :
+    fileCfiEntries Spec.cfiTables P fuel loader bytes relocate followLinks = .ok (modelFrom sec 0 sec.entries) :=
+  onFile_of_view (cfiEntries Spec.cfiTables P) (.ok (modelFrom sec 0 sec.entries)) hview fun di hv => by
+    have := entriesOf_of_view (P := P) hv "debug_frame_sec" hk sec hle hasz hc hDS hwf hsz
+    rw [heh] at this; exact this
+
+open PyElf.Model.C11 PyElf.Model.C06 PyElf.Proofs.C11 PyElf.Proofs.CfiFile in
+/-- generic, `.eh_frame`: the descriptor's address is the base of the pc-relative pointer encodings -/
+theorem eh_cfi_entries_of_view {P : Params} {fuel : Nat} {loader : Option Loader} {bytes : Bytes} {relocate followLinks : Bool}
+    {le : Bool} {asz : Nat} {arch : String} {content : Content} {supv : Option View}
+    (hview : dwarfView P fuel loader bytes relocate followLinks
+      = .ok (.mk le asz arch (contentView P.names content) supv))
+    (hk : "eh_frame_sec" ∈ P.names.map (·.1)) (hDS : StructsOk P le asz)
+    (sec : Section) (hwf : sec.wf = true) (heh : sec.eh = true) (hle : sec.le = le) (hasz : sec.asz = asz)
+    (hc : content "eh_frame_sec" = some (encodeSection sec, sec.address))
+    (hsz : (encodeSection sec).length < 2 ^ 63) :
+    fileEhCfiEntries Spec.cfiTables P fuel loader bytes relocate followLinks = .ok (modelFrom sec 0 sec.entries) :=
+  onFile_of_view (ehCfiEntries Spec.cfiTables P) (.ok (modelFrom sec 0 sec.entries)) hview fun di hv => by
+    have := entriesOf_of_view (P := P) hv "eh_frame_sec" hk sec hle hasz hc hDS hwf hsz
+    rw [heh] at this; exact this
+
+open PyElf.Model.C11 PyElf.Model.C06 PyElf.Proofs.C11 PyElf.Proofs.CfiFile in
+/-- `has_CFI()` / `has_EH_CFI()`: exactly when the content has the section -/
+theorem has_cfi_of_view {P : Params} {fuel : Nat} {loader : Option Loader} {bytes : Bytes} {relocate followLinks : Bool}
+    {le : Bool} {asz : Nat} {arch : String} {content : Content} {supv : Option View}
+    (hview : dwarfView P fuel loader bytes relocate followLinks
+      = .ok (.mk le asz arch (contentView P.names content) supv))
+    (hk : "debug_frame_sec" ∈ P.names.map (·.1)) (hke : "eh_frame_sec" ∈ P.names.map (·.1)) :
+    fileHasCFI P fuel loader bytes relocate followLinks = .ok (content "debug_frame_sec").isSome ∧
+    fileHasEHCFI P fuel loader bytes relocate followLinks = .ok (content "eh_frame_sec").isSome :=
+  ⟨onFile_of_view (fun di => .ok (hasCFI di)) (.ok _) hview fun di hv => by
+      rw [hasCFI, hasCFI_of_view hv "debug_frame_sec" hk],
+   onFile_of_view (fun di => .ok (hasEHCFI di)) (.ok _) hview fun di hv => by
+      rw [hasEHCFI, hasCFI_of_view hv "eh_frame_sec" hke]⟩
+
+open PyElf.Model.C11 PyElf.Model.C06 PyElf.Proofs.C11 PyElf.Proofs.CfiFile in
+/-- on a file without the section the accessors fail as `None.stream` does (AttributeError): callers must ask
+    `has_CFI()` / `has_EH_CFI()` first -/
+theorem cfi_entries_absent_of_view {P : Params} {fuel : Nat} {loader : Option Loader} {bytes : Bytes}
+    {relocate followLinks : Bool} {le : Bool} {asz : Nat} {arch : String} {content : Content} {supv : Option View}
+    (T : CfiTables)
+    (hview : dwarfView P fuel loader bytes relocate followLinks
+      = .ok (.mk le asz arch (contentView P.names content) supv))
+    (hk : "debug_frame_sec" ∈ P.names.map (·.1)) (hke : "eh_frame_sec" ∈ P.names.map (·.1)) :
+    (content "debug_frame_sec" = none →
+      fileCfiEntries T P fuel loader bytes relocate followLinks = .error (.py .attributeError)) ∧
+    (content "eh_frame_sec" = none →
+      fileEhCfiEntries T P fuel loader bytes relocate followLinks = .error (.py .attributeError)) :=
+  ⟨fun hc => onFile_of_view (cfiEntries T P) (.error .attributeError) hview fun _ hv =>
+      entriesOf_absent T hv "debug_frame_sec" hk hc false,
+   fun hc => onFile_of_view (ehCfiEntries T P) (.error .attributeError) hview fun _ hv =>
+      entriesOf_absent T hv "eh_frame_sec" hke hc true⟩
+
+open PyElf.Model.C11 PyElf.Model.C06 PyElf.Proofs.C11 PyElf.Proofs.CfiFile in
+/-- WHOLE FILE, `.debug_frame`.  `ELFFile(BytesIO(bytes)).get_dwarf_info(relocate, follow).CFI_entries()` on ANY
+    byte string that carries a well-formed container description (`wfZ`: sections stored plainly, gABI-compressed
+    or — `.zdebug_frame` in a file with `.zdebug_info` — in the legacy framing, `allowed` unrestricted) whose
+    `.debug_frame` content is the Spec encoding of `sec`: exactly the described entries -/
+theorem cfi_entries_of_file {P : Params} {deflate : Nat → Bytes → Bytes} (hP : C11.SpecParams P)
+    (henv : P.env.enumDecode "ENUM_ELFCOMPRESS_TYPE" 1 = some "ELFCOMPRESS_ZLIB") (hz : ZlibOk P.X deflate)
+    (d : Spec.ElfDesc) (bytes : Bytes) (obs : Spec.ElfObs)
+    (hwfd : d.wfZ P.env = true) (hl : Spec.Layout d bytes) (ho : d.observe P.env = .ok obs)
+    (hph : hasPhantomBytes obs.header = .ok false)
+    (fuel : Nat) (loader : Option Loader) (relocate followLinks : Bool) (content : Content) (m : Val)
+    (hm : obs.header.getField "e_machine" = .ok m) {allowed : Enc → Prop}
+    (hh : HoldsD P.names deflate d obs relocate content allowed)
+    (hlink : linkTarget obs.sections loader followLinks = none)
+    (hsup : followLinks = false ∨
+      ((∃ DS, P.dwarfStructsFor ⟨d.le, 32, d.cls / 8, 2⟩ = some DS) ∧
+        content "debug_sup_sec" = none ∧ content "gnu_debugaltlink_sec" = none))
+    (hk : "debug_frame_sec" ∈ P.names.map (·.1)) (hDS : StructsOk P d.le (d.cls / 8))
+    (sec : Section) (hwf : sec.wf = true) (heh : sec.eh = false) (hle : sec.le = d.le) (hasz : sec.asz = d.cls / 8)
+    (hc : content "debug_frame_sec" = some (encodeSection sec, sec.address))
+    (hsz : (encodeSection sec).length < 2 ^ 63) :
+    fileCfiEntries Spec.cfiTables P (fuel + 1) loader bytes relocate followLinks = .ok (modelFrom sec 0 sec.entries) :=
+  cfi_entries_of_view
+    (C11.view_of_file_z hP henv hz d bytes obs hwfd hl ho hph fuel loader relocate followLinks content m hm hh hlink hsup)
+    hk hDS sec hwf heh hle hasz hc hsz
+
+open PyElf.Model.C11 PyElf.Model.C06 PyElf.Proofs.C11 PyElf.Proofs.CfiFile in
+/-- WHOLE FILE, `.eh_frame` (stored plainly or gABI-compressed; the reader never renames it): the section's
+    `sh_addr` reaches the pc-relative pointer encodings -/
+theorem eh_cfi_entries_of_file {P : Params} {deflate : Nat → Bytes → Bytes} (hP : C11.SpecParams P)
+    (henv : P.env.enumDecode "ENUM_ELFCOMPRESS_TYPE" 1 = some "ELFCOMPRESS_ZLIB") (hz : ZlibOk P.X deflate)
+    (d : Spec.ElfDesc) (bytes : Bytes) (obs : Spec.ElfObs)
+    (hwfd : d.wfZ P.env = true) (hl : Spec.Layout d bytes) (ho : d.observe P.env = .ok obs)
+    (hph : hasPhantomBytes obs.header = .ok false)
+    (fuel : Nat) (loader : Option Loader) (relocate followLinks : Bool) (content : Content) (m : Val)
+    (hm : obs.header.getField "e_machine" = .ok m) {allowed : Enc → Prop}
+    (hh : HoldsD P.names deflate d obs relocate content allowed)
+    (hlink : linkTarget obs.sections loader followLinks = none)
+    (hsup : followLinks = false ∨
+      ((∃ DS, P.dwarfStructsFor ⟨d.le, 32, d.cls / 8, 2⟩ = some DS) ∧
+        content "debug_sup_sec" = none ∧ content "gnu_debugaltlink_sec" = none))
+    (hk : "eh_frame_sec" ∈ P.names.map (·.1)) (hDS : StructsOk P d.le (d.cls / 8))
+    (sec : Section) (hwf : sec.wf = true) (heh : sec.eh = true) (hle : sec.le = d.le) (hasz : sec.asz = d.cls / 8)
+    (hc : content "eh_frame_sec" = some (encodeSection sec, sec.address))
+    (hsz : (encodeSection sec).length < 2 ^ 63) :
+    fileEhCfiEntries Spec.cfiTables P (fuel + 1) loader bytes relocate followLinks = .ok (modelFrom sec 0 sec.entries) :=
+  eh_cfi_entries_of_view
+    (C11.view_of_file_z hP henv hz d bytes obs hwfd hl ho hph fuel loader relocate followLinks content m hm hh hlink hsup)
+    hk hDS sec hwf heh hle hasz hc hsz
+
+open PyElf.Model.C11 PyElf.Model.C06 PyElf.Proofs.C11 PyElf.Proofs.CfiFile in
+/-- WHOLE FILE: `has_CFI()` / `has_EH_CFI()` say whether the content has the section; without it the accessors
+    raise AttributeError -/
+theorem has_cfi_of_file {P : Params} {deflate : Nat → Bytes → Bytes} (hP : C11.SpecParams P)
+    (henv : P.env.enumDecode "ENUM_ELFCOMPRESS_TYPE" 1 = some "ELFCOMPRESS_ZLIB") (hz : ZlibOk P.X deflate)
+    (d : Spec.ElfDesc) (bytes : Bytes) (obs : Spec.ElfObs)
+    (hwfd : d.wfZ P.env = true) (hl : Spec.Layout d bytes) (ho : d.observe P.env = .ok obs)
+    (hph : hasPhantomBytes obs.header = .ok false)
+    (fuel : Nat) (loader : Option Loader) (relocate followLinks : Bool) (content : Content) (m : Val)
+    (hm : obs.header.getField "e_machine" = .ok m) {allowed : Enc → Prop}
+    (hh : HoldsD P.names deflate d obs relocate content allowed)
+    (hlink : linkTarget obs.sections loader followLinks = none)
+    (hsup : followLinks = false ∨
+      ((∃ DS, P.dwarfStructsFor ⟨d.le, 32, d.cls / 8, 2⟩ = some DS) ∧
+        content "debug_sup_sec" = none ∧ content "gnu_debugaltlink_sec" = none))
+    (hk : "debug_frame_sec" ∈ P.names.map (·.1)) (hke : "eh_frame_sec" ∈ P.names.map (·.1)) (T : CfiTables) :
+    fileHasCFI P (fuel + 1) loader bytes relocate followLinks = .ok (content "debug_frame_sec").isSome ∧
+    fileHasEHCFI P (fuel + 1) loader bytes relocate followLinks = .ok (content "eh_frame_sec").isSome ∧
+    (content "debug_frame_sec" = none →
+      fileCfiEntries T P (fuel + 1) loader bytes relocate followLinks = .error (.py .attributeError)) ∧
+    (content "eh_frame_sec" = none →
+      fileEhCfiEntries T P (fuel + 1) loader bytes relocate followLinks = .error (.py .attributeError)) := by
+  have hv := C11.view_of_file_z hP henv hz d bytes obs hwfd hl ho hph fuel loader relocate followLinks content m hm hh
+    hlink hsup
+  exact ⟨(has_cfi_of_view hv hk hke).1, (has_cfi_of_view hv hk hke).2,
+    (cfi_entries_absent_of_view T hv hk hke).1, (cfi_entries_absent_of_view T hv hk hke).2⟩
+
+open PyElf.Model.C11 PyElf.Model.C06 PyElf.Proofs.C11 PyElf.Proofs.CfiFile in
+/-- WHOLE FILE WITH RELOCATIONS (`.rela.debug_frame` / `.rela.eh_frame` of a relocatable object, any container
+    encoding of the target section): the entries are those of the RELOCATED content (C11 `view_of_file_relocated`,
+    C08's `applyStd`).  `which`: `false` = `.debug_frame` / `CFI_entries()`, `true` = `.eh_frame` / `EH_CFI_entries()`. -/
+theorem cfi_entries_of_file_relocated {P : Params} {deflate : Nat → Bytes → Bytes} (hP : C11.SpecParams P)
+    (henv : P.env.enumDecode "ENUM_ELFCOMPRESS_TYPE" 1 = some "ELFCOMPRESS_ZLIB") (hz : ZlibOk P.X deflate)
+    (d : Spec.ElfDesc) (bytes : Bytes) (obs : Spec.ElfObs)
+    (hwfd : d.wfZ P.env = true) (hl : Spec.Layout d bytes) (ho : d.observe P.env = .ok obs)
+    (hph : hasPhantomBytes obs.header = .ok false)
+    (fuel : Nat) (loader : Option Loader) (relocate followLinks : Bool) (a : Spec.Arch) (cr : ContentR) (m : Val)
+    (hm : obs.header.getField "e_machine" = .ok m) (harch : P.machineArchOf m = Proofs.Reloc.archString a)
+    (hmips : decide (d.mclass = "EM_MIPS") = decide (a = .mips)) {allowed : Enc → Prop}
+    (hh : HoldsRD P.names deflate d obs relocate a cr allowed)
+    (hlink : linkTarget obs.sections loader followLinks = none)
+    (hsup : followLinks = false ∨
+      ((∃ DS, P.dwarfStructsFor ⟨d.le, 32, d.cls / 8, 2⟩ = some DS) ∧
+        cr "debug_sup_sec" = none ∧ cr "gnu_debugaltlink_sec" = none))
+    (hk : "debug_frame_sec" ∈ P.names.map (·.1)) (hke : "eh_frame_sec" ∈ P.names.map (·.1))
+    (hDS : StructsOk P d.le (d.cls / 8))
+    (sec : Section) (hwf : sec.wf = true) (hle : sec.le = d.le) (hasz : sec.asz = d.cls / 8)
+    (hc : relocatedContent a (Proofs.Reloc.relCfgOf d.cfg) relocate cr (if sec.eh then "eh_frame_sec" else "debug_frame_sec")
+      = some (encodeSection sec, sec.address))
+    (hsz : (encodeSection sec).length < 2 ^ 63) :
+    (if sec.eh then fileEhCfiEntries Spec.cfiTables P (fuel + 1) loader bytes relocate followLinks
+     else fileCfiEntries Spec.cfiTables P (fuel + 1) loader bytes relocate followLinks)
+      = .ok (modelFrom sec 0 sec.entries) := by
+  have hv := C11.view_of_file_relocated hP henv hz d bytes obs hwfd hl ho hph fuel loader relocate followLinks a cr m hm
+    harch hmips hh hlink hsup
+  cases heh : sec.eh with
+  | false =>
+    rw [heh] at hc
+    simpa using cfi_entries_of_view hv hk hDS sec hwf heh hle hasz (by simpa using hc) hsz
+  | true =>
+    rw [heh] at hc
+    simpa using eh_cfi_entries_of_view hv hke hDS sec hwf heh hle hasz (by simpa using hc) hsz
+
+open PyElf.Model.C11 PyElf.Model.C06 PyElf.Proofs.C11 PyElf.Proofs.CfiFile in
+/-- WHOLE FILE, the decoded table: entry `i` of what `CFI_entries()` returns on the file decodes to the table of
+    DWARF §6.4 (`stdTableOf`: CIE initial rules, code/data alignment factors, restore, remember/restore state) -/
+theorem file_cfi_table {P : Params} {fuel : Nat} {loader : Option Loader} {bytes : Bytes} {relocate followLinks : Bool}
+    {sec : Section}
+    (hfile : (if sec.eh then fileEhCfiEntries Spec.cfiTables P fuel loader bytes relocate followLinks
+              else fileCfiEntries Spec.cfiTables P fuel loader bytes relocate followLinks)
+      = .ok (modelFrom sec 0 sec.entries))
+    (hwf : sec.wf = true) (i : Nat) (se : Spec.Entry) (hi : sec.entries[i]? = some se)
+    (rows : List Row) (hstd : stdTableOf sec (sec.offsetOf i) se = some rows) :
+    ∃ es e dt, (if sec.eh then fileEhCfiEntries Spec.cfiTables P fuel loader bytes relocate followLinks
+                else fileCfiEntries Spec.cfiTables P fuel loader bytes relocate followLinks) = .ok es ∧
+      es.length = sec.entries.length ∧ es[i]? = some e ∧
+      decodeTable Spec.cfiTables e = .ok dt ∧ All₂ LineRel dt.table rows ∧ dt.regOrder = regOrderOf sec se := by
+  obtain ⟨dt, hdt, hrel⟩ := modelOf_table sec hwf i se hi rows hstd
+  exact ⟨_, _, dt, hfile, modelFrom_length sec _ _, modelFrom_get sec i se hi, hdt, hrel, modelOf_order sec hwf i se hi dt hdt⟩
+
+/-- the regenerated DWARF struct factory satisfies `StructsOk` for every file configuration -/
+theorem structsOk_generated (X : PyElf.Model.C11.Ext) (le : Bool) (asz : Nat) (h : asz = 4 ∨ asz = 8) :
+    PyElf.Proofs.CfiFile.StructsOk
+      { env := elfEnv, structsFor := elfStructsFor, machineClassOf := machineClassOf,
+        machineArchOf := Reloc.machineArchOf, dwarfStructsFor := dwarfStructsFor,
+        names := Gen.c11SectionNames, X := X } le asz := by
+  intro fmt hf
+  rcases hf with rfl | rfl <;> rcases h with rfl | rfl <;> cases le <;> rfl
+
+/-- the reader's table has both keywords -/
+theorem cfi_keywords_generated :
+    "debug_frame_sec" ∈ Gen.c11SectionNames.map (·.1) ∧ "eh_frame_sec" ∈ Gen.c11SectionNames.map (·.1) := by
+  decide
+
+/-! ### malformed sections: exact behaviour (error class, or where the scan goes on)
+
+  The classes the property names, as the code has them (helper lemmas: Proofs/CfiMalformed.lean — instruction
+  level, any struct bundle of the Spec; Proofs/CfiMalformedEntry.lean — entry level via `cie_prologue`: a CIE with
+  the header of a description `c`, an ARBITRARY length field `L` and ARBITRARY bytes after the augmentation data, at
+  any offset of any data, any cache that misses that offset):
+
+    unknown opcode                       → DWARFError      `bad_unknown_opcode`, `bad_unknown_opcode_cie`
+    entry length running past the data   → ELFParseError   `bad_length_past_data`, `bad_length_past_data_cie`
+    truncated instruction (the data ends after k bytes of an instruction, ANY 1 ≤ k < its length: inside the first
+    or second operand, inside a LEB128, inside a block)
+                                         → ELFParseError   `bad_truncated_instr`, `bad_truncated_instr_cie`
+                                           (k = 1, data ends after the opcode byte: `bad_truncated_operand`, `…_cie`)
+    entry length too short (declared end inside an instruction)
+                                         → no error; the instruction is read in full, the scan resumes beyond the
+                                           declared end       `bad_length_short`, `bad_length_short_cie`
+    CIE pointer out of range             → ELFParseError (`.debug_frame`, at/after the end) / ValueError (`.eh_frame`,
+                                           before the start)  `bad_cie_pointer_past_data`, `bad_cie_pointer_before_start`
+                                           (`_parse_cie_for_fde`), `bad_cie_pointer_past_data_fde`,
+                                           `bad_cie_pointer_before_start_fde` (whole FDE, `_parse_entry_at`)
+    CIE pointer to a non-CIE             → accepted: whatever entry is found there becomes `fde.cie`
+                                                              `bad_cie_pointer_non_cie` (and `fde_cie_link` above)
+    unknown augmentation                 → AssertionError unless it starts with 'z' / 'armcc'; after 'z' the letter
+                                           loop breaks at the first unknown letter
+                                                              `bad_aug_not_z`, `bad_aug_not_z_cie` (whole CIE),
+                                                              `bad_aug_armcc`, `bad_aug_unknown_letter`
+    the scan stops at the first entry that fails               `bad_first_entry_stops_scan`, `bad_entry_stops_scan`,
+                                                              `good_entry_continues_scan`
+
+  A malformed entry AFTER well-formed ones, at the level of `get_entries()`: section "a malformed entry AFTER
+  well-formed ones" below (`bad_*_after_section`).
+  Still correspondence-only (harness streams `raw`, `bad`): the instruction classes inside an FDE at entry level (the instruction-level theorems do not depend on
+  the entry kind), an FDE designating itself (unbounded recursion: RecursionError / `outOfFuel`). -/
+
+open PyElf.Proofs.CfiBad in
+/-- unknown opcode, instruction level: well-formed instructions, then before the declared end a byte outside the
+    DW_CFA set (`knownExt`: 0x00–0x16, 0x2d, 0x2e; the three primary opcodes cover 0x40–0xff) -/
+theorem bad_unknown_opcode (le : Bool) (fmt asz ver : Nat) (env : Env) (data : Bytes) (endOff : Nat) (is : List Cfa)
+    (pos fuel op : Nat) (rest : Bytes)
+    (hd : data.drop pos = encInstrs le asz is ++ (byte op ++ rest)) (hw : ∀ i ∈ is, i.wf asz = true)
+    (hend : pos + (encInstrs le asz is).length < endOff) (hlt : op < 0x40) (hunk : op ∉ knownExt) :
+    parseInstructions Spec.cfiTables (Spec.dwarfStructs ⟨le, fmt, asz, ver⟩) env data endOff (fuel + 1 + is.length) pos
+      = .error .dwarfError :=
+  parseInstructions_unknown (instrStructs_spec le fmt asz ver) env data endOff is pos fuel op rest hd hw hend hlt hunk
+
+open PyElf.Proofs.CfiBad in
+/-- entry length running past the data, instruction level -/
+theorem bad_length_past_data (le : Bool) (fmt asz ver : Nat) (env : Env) (data : Bytes) (endOff : Nat) (is : List Cfa)
+    (pos fuel : Nat) (hd : data.drop pos = encInstrs le asz is) (hw : ∀ i ∈ is, i.wf asz = true)
+    (hend : data.length < endOff) (hpos : pos ≤ data.length) :
+    parseInstructions Spec.cfiTables (Spec.dwarfStructs ⟨le, fmt, asz, ver⟩) env data endOff (fuel + 1 + is.length) pos
+      = .error .elfParseError :=
+  parseInstructions_past_data (instrStructs_spec le fmt asz ver) env data endOff is pos fuel hd hw hend hpos
+
+open PyElf.Proofs.CfiBad in
+/-- truncated operand, instruction level: every one of the 22 opcodes that take operands -/
+theorem bad_truncated_operand (le : Bool) (fmt asz ver : Nat) (env : Env) (data : Bytes) (endOff : Nat) (is : List Cfa)
+    (pos fuel : Nat) (i : Cfa)
+    (hd : data.drop pos = encInstrs le asz is ++ byte i.opcode) (hw : ∀ j ∈ is, j.wf asz = true)
+    (hwi : i.wf asz = true) (ho : hasOperands i = true) (hasz : 0 < asz) (hop : i.opcode < 256)
+    (hend : pos + (encInstrs le asz is).length < endOff) :
+    parseInstructions Spec.cfiTables (Spec.dwarfStructs ⟨le, fmt, asz, ver⟩) env data endOff (fuel + 1 + is.length) pos
+      = .error .elfParseError :=
+  parseInstructions_operand_eof (instrStructs_spec le fmt asz ver) env data endOff is pos fuel i hd hw hwi ho hasz hop hend
+
+open PyElf.Proofs.CfiBad in
+/-- truncated instruction, instruction level, in full: after well-formed instructions the data ends `k` bytes into
+    instruction `i`, for any `1 ≤ k < length` — all 22 opcodes that take operands, either operand, any LEB128
+    padding, blocks of any length -/
+theorem bad_truncated_instr (le : Bool) (fmt asz ver : Nat) (env : Env) (data : Bytes) (endOff : Nat) (is : List Cfa)
+    (pos fuel : Nat) (i : Cfa) (k : Nat)
+    (hd : data.drop pos = encInstrs le asz is ++ (i.enc le asz).take k) (hw : ∀ j ∈ is, j.wf asz = true)
+    (hwi : i.wf asz = true) (hk1 : 1 ≤ k) (hk : k < (i.enc le asz).length)
+    (hend : pos + (encInstrs le asz is).length < endOff) :
+    parseInstructions Spec.cfiTables (Spec.dwarfStructs ⟨le, fmt, asz, ver⟩) env data endOff (fuel + 1 + is.length) pos
+      = .error .elfParseError :=
+  parseInstructions_cut (instrStructs_spec le fmt asz ver) env data endOff is pos fuel i k hd hw hwi hk1 hk hend
+
+open PyElf.Proofs.CfiBad in
+/-- truncated instruction, whole CIE, in full -/
+theorem bad_truncated_instr_cie (sec : Section) (env : Env) (data : Bytes) (c : Cie) (L : Nat) (is : List Cfa) (i : Cfa)
+    (k : Nat) (off fuel pos : Nat) (cache : Cache)
+    (hw : cieHeaderWf sec c = true) (hasz : sec.asz = 4 ∨ sec.asz = 8)
+    (hd : data.drop off = encLength sec.le c.fmt64 L ++
+      cieHdrBytes sec.le (offSize c.fmt64) (cieIdv sec c) c.version (augString c.aug) c.addrSize c.segSize c.caf c.daf
+        c.ra (cieAugPart sec c ++ (encInstrs sec.le sec.asz is ++ (i.enc sec.le sec.asz).take k)))
+    (hlen : lenOk c.fmt64 L = true) (hLpos : 0 < L) (hoff : off < 2 ^ 63) (hmiss : cache.get (off : Int) = none)
+    (hwi : ∀ j ∈ is, j.wf sec.asz = true) (hi : i.wf sec.asz = true) (hk1 : 1 ≤ k)
+    (hk : k < (i.enc sec.le sec.asz).length)
+    (hend : cieInstrStart sec c off + (encInstrs sec.le sec.asz is).length < off + L + ilfs c.fmt64) :
+    parseEntryAt (cfiOf sec env data) (fuel + 1) off pos cache = .error .elfParseError :=
+  cie_instr_cut sec env data c L is i k off fuel pos cache hw hasz hd hlen hLpos hoff hmiss hwi hi hk1 hk hend
+
+open PyElf.Proofs.CfiBad in
+/-- entry length too short, instruction level: the scan never stops inside an operand -/
+theorem bad_length_short (le : Bool) (fmt asz ver : Nat) (env : Env) (data : Bytes) (endOff : Nat) (is : List Cfa)
+    (pos fuel : Nat) (i : Cfa) (rest : Bytes)
+    (hd : data.drop pos = encInstrs le asz is ++ (i.enc le asz ++ rest)) (hw : ∀ j ∈ is, j.wf asz = true)
+    (hwi : i.wf asz = true) (hstart : pos + (encInstrs le asz is).length < endOff)
+    (hend : endOff ≤ pos + (encInstrs le asz is).length + (i.enc le asz).length) :
+    parseInstructions Spec.cfiTables (Spec.dwarfStructs ⟨le, fmt, asz, ver⟩) env data endOff (fuel + 2 + is.length) pos
+      = .ok (is.map toInstr ++ [toInstr i], pos + (encInstrs le asz is).length + (i.enc le asz).length) :=
+  parseInstructions_overrun (instrStructs_spec le fmt asz ver) env data endOff is pos fuel i rest hd hw hwi hstart hend
+
+open PyElf.Proofs.CfiBad in
+/-- unknown opcode, whole CIE (`_parse_entry_at`): header of `c`, any length field that puts the declared end after
+    the bad byte, at any offset, any cache that misses it -/
+theorem bad_unknown_opcode_cie (sec : Section) (env : Env) (data : Bytes) (c : Cie) (L : Nat) (is : List Cfa) (op : Nat)
+    (rest : Bytes) (off fuel pos : Nat) (cache : Cache)
+    (hw : cieHeaderWf sec c = true) (hasz : sec.asz = 4 ∨ sec.asz = 8)
+    (hd : data.drop off = encLength sec.le c.fmt64 L ++
+      cieHdrBytes sec.le (offSize c.fmt64) (cieIdv sec c) c.version (augString c.aug) c.addrSize c.segSize c.caf c.daf
+        c.ra (cieAugPart sec c ++ (encInstrs sec.le sec.asz is ++ (byte op ++ rest))))
+    (hlen : lenOk c.fmt64 L = true) (hLpos : 0 < L) (hoff : off < 2 ^ 63) (hmiss : cache.get (off : Int) = none)
+    (hwi : ∀ i ∈ is, i.wf sec.asz = true)
+    (hend : cieInstrStart sec c off + (encInstrs sec.le sec.asz is).length < off + L + ilfs c.fmt64)
+    (hlt : op < 0x40) (hunk : op ∉ knownExt) :
+    parseEntryAt (cfiOf sec env data) (fuel + 1) off pos cache = .error .dwarfError :=
+  cie_unknown_opcode sec env data c L is op rest off fuel pos cache hw hasz hd hlen hLpos hoff hmiss hwi hend hlt hunk
+
+open PyElf.Proofs.CfiBad in
+/-- entry length running past the section, whole CIE -/
+theorem bad_length_past_data_cie (sec : Section) (env : Env) (data : Bytes) (c : Cie) (L : Nat) (is : List Cfa)
+    (off fuel pos : Nat) (cache : Cache)
+    (hw : cieHeaderWf sec c = true) (hasz : sec.asz = 4 ∨ sec.asz = 8)
+    (hd : data.drop off = encLength sec.le c.fmt64 L ++
+      cieHdrBytes sec.le (offSize c.fmt64) (cieIdv sec c) c.version (augString c.aug) c.addrSize c.segSize c.caf c.daf
+        c.ra (cieAugPart sec c ++ encInstrs sec.le sec.asz is))
+    (hlen : lenOk c.fmt64 L = true) (hLpos : 0 < L) (hoff : off < 2 ^ 63) (hmiss : cache.get (off : Int) = none)
+    (hwi : ∀ i ∈ is, i.wf sec.asz = true) (hend : data.length < off + L + ilfs c.fmt64) :
+    parseEntryAt (cfiOf sec env data) (fuel + 1) off pos cache = .error .elfParseError :=
+  cie_length_past_data sec env data c L is off fuel pos cache hw hasz hd hlen hLpos hoff hmiss hwi hend
+
+open PyElf.Proofs.CfiBad in
+/-- truncated operand, whole CIE -/
+theorem bad_truncated_operand_cie (sec : Section) (env : Env) (data : Bytes) (c : Cie) (L : Nat) (is : List Cfa) (i : Cfa)
+    (off fuel pos : Nat) (cache : Cache)
+    (hw : cieHeaderWf sec c = true) (hasz : sec.asz = 4 ∨ sec.asz = 8)
+    (hd : data.drop off = encLength sec.le c.fmt64 L ++
+      cieHdrBytes sec.le (offSize c.fmt64) (cieIdv sec c) c.version (augString c.aug) c.addrSize c.segSize c.caf c.daf
+        c.ra (cieAugPart sec c ++ (encInstrs sec.le sec.asz is ++ byte i.opcode)))
+    (hlen : lenOk c.fmt64 L = true) (hLpos : 0 < L) (hoff : off < 2 ^ 63) (hmiss : cache.get (off : Int) = none)
+    (hwi : ∀ j ∈ is, j.wf sec.asz = true) (hi : i.wf sec.asz = true) (ho : hasOperands i = true) (hop : i.opcode < 256)
+    (hend : cieInstrStart sec c off + (encInstrs sec.le sec.asz is).length < off + L + ilfs c.fmt64) :
+    parseEntryAt (cfiOf sec env data) (fuel + 1) off pos cache = .error .elfParseError :=
+  cie_operand_cut sec env data c L is i off fuel pos cache hw hasz hd hlen hLpos hoff hmiss hwi hi ho hop hend
+
+open PyElf.Proofs.CfiBad in
+/-- entry length too short, whole CIE: the CIE object carries the straddling instruction, the stream is left beyond
+    the declared end (where `_parse_entries` takes the next entry from) -/
+theorem bad_length_short_cie (sec : Section) (env : Env) (data : Bytes) (c : Cie) (L : Nat) (is : List Cfa) (i : Cfa)
+    (rest : Bytes) (off fuel pos : Nat) (cache : Cache)
+    (hw : cieHeaderWf sec c = true) (hasz : sec.asz = 4 ∨ sec.asz = 8)
+    (hd : data.drop off = encLength sec.le c.fmt64 L ++
+      cieHdrBytes sec.le (offSize c.fmt64) (cieIdv sec c) c.version (augString c.aug) c.addrSize c.segSize c.caf c.daf
+        c.ra (cieAugPart sec c ++ (encInstrs sec.le sec.asz is ++ (i.enc sec.le sec.asz ++ rest))))
+    (hlen : lenOk c.fmt64 L = true) (hLpos : 0 < L) (hoff : off < 2 ^ 63) (hmiss : cache.get (off : Int) = none)
+    (hwi : ∀ j ∈ is, j.wf sec.asz = true) (hi : i.wf sec.asz = true)
+    (hstart : cieInstrStart sec c off + (encInstrs sec.le sec.asz is).length < off + L + ilfs c.fmt64)
+    (hend : off + L + ilfs c.fmt64
+      ≤ cieInstrStart sec c off + (encInstrs sec.le sec.asz is).length + (i.enc sec.le sec.asz).length) :
+    parseEntryAt (cfiOf sec env data) (fuel + 1) off pos cache
+      = .ok (cieObj sec c L off (is.map toInstr ++ [toInstr i]),
+             cieInstrStart sec c off + (encInstrs sec.le sec.asz is).length + (i.enc sec.le sec.asz).length,
+             ((off : Int), cieObj sec c L off (is.map toInstr ++ [toInstr i])) :: cache) :=
+  cie_length_short sec env data c L is i rest off fuel pos cache hw hasz hd hlen hLpos hoff hmiss hwi hi hstart hend
+
+/-- the section scan stops at the first entry that fails: `get_entries()` raises what `_parse_entry_at` raised -/
+theorem bad_first_entry_stops_scan (C : Cfi) (size : Nat) (e : Err) (hsize : 0 < size)
+    (h : parseEntryAt C (size + 2) ((0 : Nat) : Int) 0 [] = .error e) : parseEntries C size = .error e :=
+  PyElf.Proofs.CfiBad.parseEntries_first_error C size e hsize h
+
+/-- … anywhere in the scan (`_parse_entries`): an entry that parses is followed by the scan from where it left the
+    stream; the first entry that fails ends `get_entries()` with its error -/
+theorem bad_entry_stops_scan (C : Cfi) (size depth fuel off : Nat) (cache : Cache) (e : Err) (hoff : off < size)
+    (h : parseEntryAt C depth (off : Int) off cache = .error e) :
+    parseEntriesLoop C size depth (fuel + 1) off cache = .error e :=
+  PyElf.Proofs.CfiBad.parseEntriesLoop_error C size depth fuel off cache e hoff h
+
+theorem good_entry_continues_scan (C : Cfi) (size depth fuel off : Nat) (cache cache' : Cache) (en : Model.Entry) (p : Nat)
+    (hoff : off < size) (h : parseEntryAt C depth (off : Int) off cache = .ok (en, p, cache')) :
+    parseEntriesLoop C size depth (fuel + 1) off cache
+      = (parseEntriesLoop C size depth fuel p cache').map (en :: ·) :=
+  PyElf.Proofs.CfiBad.parseEntriesLoop_ok C size depth fuel off cache cache' en p hoff h
+
+/-- CIE pointer out of range, `.debug_frame`: at or beyond the end of the data (also ≥ 2^63) -/
+theorem bad_cie_pointer_past_data (C : Cfi) (S32 : DwarfStructs) (le : Bool) (fuel fdeOff fmt pos : Nat) (header : Fields)
+    (cache : Cache) (cp : Nat) (heh : C.eh = false) (hS : C.structs 32 = .ok S32)
+    (hu32 : S32.the_Dwarf_uint32 = .uint 4 le)
+    (hptr : Fields.getR header "CIE_pointer" = .ok (.int cp)) (hpast : C.data.length ≤ cp)
+    (hmiss : cache.get (cp : Int) = none) :
+    parseCieForFde C (parseEntryAt C (fuel + 1)) fdeOff header fmt pos cache = .error .elfParseError :=
+  PyElf.Proofs.CfiBad.ciePtr_past_data C S32 le fuel fdeOff fmt pos header cache cp heh hS hu32 hptr hpast hmiss
+
+/-- CIE pointer out of range, `.eh_frame`: a distance back that reaches before the start of the section -/
+theorem bad_cie_pointer_before_start (C : Cfi) (fuel fdeOff fmt pos : Nat) (header : Fields) (cache : Cache) (cp : Nat)
+    (heh : C.eh = true) (hptr : Fields.getR header "CIE_pointer" = .ok (.int cp)) (hneg : fdeOff + fmt / 8 < cp)
+    (hmiss : cache.get ((fdeOff : Int) + (fmt / 8 : Nat) - cp) = none) :
+    parseCieForFde C (parseEntryAt C (fuel + 1)) fdeOff header fmt pos cache = .error .valueError :=
+  PyElf.Proofs.CfiBad.ciePtr_before_start C fuel fdeOff fmt pos header cache cp heh hptr hneg hmiss
+
+/-- CIE pointer to a non-CIE: the entry found at the designated offset (here: cached, of ANY kind that has a
+    header — e.g. an FDE) is taken as the CIE; no check of its kind -/
+theorem bad_cie_pointer_non_cie (C : Cfi) (fuel fdeOff fmt pos : Nat) (header : Fields) (cache : Cache) (cp : Int)
+    (e : Model.Entry) (h : Fields) (len il : Nat)
+    (hptr : Fields.getR header "CIE_pointer" = .ok (.int cp))
+    (hc : cache.get (if C.eh then (fdeOff : Int) + (fmt / 8 : Nat) - cp else cp) = some e)
+    (hh : e.header = .ok h) (hl : Fields.getR h "length" = .ok (.int len)) (hi : e.ilfs = .ok il) :
+    parseCieForFde C (parseEntryAt C (fuel + 1)) fdeOff header fmt pos cache = .ok (e, cache) :=
+  PyElf.Proofs.CfiBad.ciePtr_any_entry C fuel fdeOff fmt pos header cache cp e h len il hptr hc hh hl hi
+
+/-- CIE pointer out of range, whole `.debug_frame` FDE (`_parse_entry_at`): header well formed, pointer `k` (not the
+    CIE id) at or beyond the end of the data -/
+theorem bad_cie_pointer_past_data_fde (sec : Section) (env : Env) (data : Bytes) (heh : sec.eh = false) (fmt64 : Bool)
+    (L k : Nat) (loc range : Int) (tail : Bytes) (off fuel pos : Nat) (cache : Cache)
+    (hd : data.drop off = encLength sec.le fmt64 L ++ (encNat sec.le (offSize fmt64) k ++
+      (encPtr sec.le sec.asz 0 loc ++ (encPtr sec.le sec.asz 0 range ++ tail))))
+    (hlen : lenOk fmt64 L = true) (hLpos : 0 < L) (hk : k < 256 ^ offSize fmt64 - 1)
+    (hfl : ptrFits sec.asz 0 loc = true) (hfr : ptrFits sec.asz 0 range = true)
+    (hoff : off < 2 ^ 63) (hmiss : cache.get (off : Int) = none)
+    (hpast : data.length ≤ k) (hmissk : cache.get (k : Int) = none) :
+    parseEntryAt (cfiOf sec env data) (fuel + 2) off pos cache = .error .elfParseError :=
+  PyElf.Proofs.CfiBad.fde_ptr_past_data sec env data heh fmt64 L k loc range tail off fuel pos cache hd hlen hLpos hk hfl
+    hfr hoff hmiss hpast hmissk
+
+/-- CIE pointer out of range, whole `.eh_frame` FDE: distance back `cp ≠ 0` larger than the offset of the pointer
+    field (whatever follows the pointer) -/
+theorem bad_cie_pointer_before_start_fde (sec : Section) (env : Env) (data : Bytes) (heh : sec.eh = true) (fmt64 : Bool)
+    (L cp : Nat) (rest : Bytes) (off fuel pos : Nat) (cache : Cache)
+    (hd : data.drop off = encLength sec.le fmt64 L ++ (encNat sec.le (offSize fmt64) cp ++ rest))
+    (hlen : lenOk fmt64 L = true) (hLpos : 0 < L) (hcp : cp < 256 ^ offSize fmt64) (hcp0 : cp ≠ 0)
+    (hoff : off < 2 ^ 63) (hmiss : cache.get (off : Int) = none) (hneg : off + offSize fmt64 < cp)
+    (hmissk : cache.get ((off : Int) + (offSize fmt64 : Nat) - cp) = none) :
+    parseEntryAt (cfiOf sec env data) (fuel + 2) off pos cache = .error .valueError :=
+  PyElf.Proofs.CfiBad.fde_ptr_before_start sec env data heh fmt64 L cp rest off fuel pos cache hd hlen hLpos hcp hcp0 hoff
+    hmiss hneg hmissk
+
+/-- unknown augmentation, whole CIE of either section kind (`_parse_entry_at`): any header whose augmentation
+    string is non-empty and starts neither with 'z' nor with 'armcc' → AssertionError -/
+theorem bad_aug_not_z_cie (sec : Section) (env : Env) (data : Bytes) (fmt64 : Bool) (L ver a sg : Nat) (augB : Bytes)
+    (caf : ULeb) (daf : SLeb) (ra : ULeb) (tail : Bytes) (off fuel pos : Nat) (cache : Cache)
+    (hd : data.drop off = encLength sec.le fmt64 L ++
+      cieHdrBytes sec.le (offSize fmt64) (if sec.eh then 0 else 256 ^ offSize fmt64 - 1) ver augB a sg caf daf ra tail)
+    (hlen : lenOk fmt64 L = true) (hLpos : 0 < L) (hoff : off < 2 ^ 63) (hmiss : cache.get (off : Int) = none)
+    (hver : ver = 1 ∨ ver = 3 ∨ ver = 4) (haug0 : ∀ b ∈ augB, b ≠ 0)
+    (ha : 4 ≤ ver → a < 256) (hs : 4 ≤ ver → sg < 256) (hcaf : caf.wf = true) (hdaf : daf.wf = true)
+    (hra : if ver = 1 then ra.v < 256 else ra.wf = true)
+    (hne : augB ≠ []) (harm : ([0x61, 0x72, 0x6d, 0x63, 0x63] : Bytes).isPrefixOf augB = false)
+    (hz : ([0x7a] : Bytes).isPrefixOf augB = false) :
+    parseEntryAt (cfiOf sec env data) (fuel + 1) off pos cache = .error .assertion :=
+  PyElf.Proofs.CfiBad.cie_bad_aug sec env data fmt64 L ver a sg augB caf daf ra tail off fuel pos cache hd hlen hLpos hoff
+    hmiss hver haug0 ha hs hcaf hdaf hra hne harm hz
+
+/-- unknown augmentation: not 'z…', not 'armcc…' → AssertionError -/
+theorem bad_aug_not_z (C : Cfi) (S : DwarfStructs) (header : Fields) (pos : Nat) (augB : Bytes)
+    (ha : Fields.get? header "augmentation" = some (.bytes augB)) (hne : augB ≠ [])
+    (harm : ([0x61, 0x72, 0x6d, 0x63, 0x63] : Bytes).isPrefixOf augB = false)
+    (hz : ([0x7a] : Bytes).isPrefixOf augB = false) :
+    parseCieAugmentation C S header pos = .error .assertion :=
+  PyElf.Proofs.CfiBad.aug_not_z C S header pos augB ha hne harm hz
+
+/-- 'armcc…' is skipped: no augmentation data -/
+theorem bad_aug_armcc (C : Cfi) (S : DwarfStructs) (header : Fields) (pos : Nat) (augB : Bytes)
+    (ha : Fields.get? header "augmentation" = some (.bytes augB))
+    (harm : ([0x61, 0x72, 0x6d, 0x63, 0x63] : Bytes).isPrefixOf augB = true) :
+    parseCieAugmentation C S header pos = .ok ([], [], pos) :=
+  PyElf.Proofs.CfiBad.aug_armcc C S header pos augB ha harm
+
+/-- unknown letter after 'z': the letters from the first unknown one on are ignored -/
+theorem bad_aug_unknown_letter (T : CfiTables) (S : DwarfStructs) (b : UInt8) (pre rest : Bytes)
+    (hb : b ≠ 0x7a ∧ b ≠ 0x4c ∧ b ≠ 0x52 ∧ b ≠ 0x53 ∧ b ≠ 0x50) (fields : List (String × Con)) (d : Fields) :
+    augFieldsLoop T S (pre ++ b :: rest) fields d = augFieldsLoop T S pre fields d :=
+  PyElf.Proofs.CfiBad.aug_unknown_letter T S b rest hb pre fields d
+
+/-! non-vacuity of the malformed-class hypotheses: the version-4 CIE of `exSec` alone in a `.debug_frame`, with
+    (1) an unknown opcode 0x3f appended inside its declared length, (2) its length field claiming 4 bytes more than
+    the data holds, (3) the data ending after the opcode byte of DW_CFA_def_cfa_offset, (4) a length field that ends
+    inside its last instruction (DW_CFA_offset r16, 1) with another entry's bytes following -/
+
+private def badCfg : Section := { eh := false, le := true, asz := 8, address := 0, entries := [] }
+private def badCie : Cie :=
+  { fmt64 := false, version := 4, aug := none, augLenN := 1, addrSize := 8, segSize := 0,
+    caf := ⟨1, 1⟩, daf := ⟨1, -8⟩, ra := ⟨1, 16⟩, instrs := [] }
+private def badIs : List Cfa := [.def_cfa ⟨1, 7⟩ ⟨1, 8⟩]
+private def badData (L : Nat) (tail : Bytes) : Bytes :=
+  encLength true false L ++ cieHdrBytes true 4 (cieIdv badCfg badCie) 4 [] 8 0 ⟨1, 1⟩ ⟨1, -8⟩ ⟨1, 16⟩ tail
+
+example (env : Env) :
+    parseEntries (cfiOf badCfg env (badData 16 (encInstrs true 8 badIs ++ (byte 0x3f ++ [0, 0]))))
+      (badData 16 (encInstrs true 8 badIs ++ (byte 0x3f ++ [0, 0]))).length = .error .dwarfError :=
+  bad_first_entry_stops_scan _ _ _ (by decide +kernel)
+    (bad_unknown_opcode_cie badCfg env _ badCie 16 badIs 0x3f [0, 0] 0 _ 0 [] (by decide) (Or.inr rfl) (by decide +kernel)
+      (by decide) (by decide) (by decide) rfl (by decide) (by decide +kernel) (by decide) (by decide))
+
+example (env : Env) :
+    parseEntries (cfiOf badCfg env (badData 17 (encInstrs true 8 badIs))) (badData 17 (encInstrs true 8 badIs)).length
+      = .error .elfParseError :=
+  bad_first_entry_stops_scan _ _ _ (by decide +kernel)
+    (bad_length_past_data_cie badCfg env _ badCie 17 badIs 0 _ 0 [] (by decide) (Or.inr rfl) (by decide +kernel)
+      (by decide) (by decide) (by decide) rfl (by decide) (by decide +kernel))
+
+example (env : Env) :
+    parseEntries (cfiOf badCfg env (badData 15 (encInstrs true 8 badIs ++ byte (Cfa.opcode (.def_cfa_offset ⟨1, 16⟩)))))
+      (badData 15 (encInstrs true 8 badIs ++ byte (Cfa.opcode (.def_cfa_offset ⟨1, 16⟩)))).length = .error .elfParseError :=
+  bad_first_entry_stops_scan _ _ _ (by decide +kernel)
+    (bad_truncated_operand_cie badCfg env _ badCie 15 badIs (.def_cfa_offset ⟨1, 16⟩) 0 _ 0 [] (by decide) (Or.inr rfl)
+      (by decide +kernel) (by decide) (by decide) (by decide) rfl (by decide) (by decide) (by decide) (by decide)
+      (by decide +kernel))
+
+/-- (3') the data ends inside the block of DW_CFA_val_expression r3, [0x77, 0x08, 0x22] (4 of its 6 bytes present) -/
+example (env : Env) :
+    parseEntries (cfiOf badCfg env (badData 20 (encInstrs true 8 badIs ++ (Cfa.enc true 8 (.val_expression ⟨1, 3⟩ ⟨1, [0x77, 0x08, 0x22]⟩)).take 4)))
+      (badData 20 (encInstrs true 8 badIs ++ (Cfa.enc true 8 (.val_expression ⟨1, 3⟩ ⟨1, [0x77, 0x08, 0x22]⟩)).take 4)).length
+      = .error .elfParseError :=
+  bad_first_entry_stops_scan _ _ _ (by decide +kernel)
+    (bad_truncated_instr_cie badCfg env _ badCie 20 badIs (.val_expression ⟨1, 3⟩ ⟨1, [0x77, 0x08, 0x22]⟩) 4 0 _ 0 []
+      (by decide) (Or.inr rfl) (by decide +kernel) (by decide) (by decide) (by decide) rfl (by decide) (by decide)
+      (by decide) (by decide) (by decide +kernel))
+
+open PyElf.Proofs.CfiBad in
+example (env : Env) :
+    parseEntryAt (cfiOf badCfg env (badData 15 (encInstrs true 8 badIs ++ (Cfa.enc true 8 (.offset 16 ⟨1, 1⟩) ++ [9, 9])))) 1
+        ((0 : Nat) : Int) 0 []
+      = .ok (cieObj badCfg badCie 15 0 (badIs.map toInstr ++ [toInstr (.offset 16 ⟨1, 1⟩)]), 20,
+             [(((0 : Nat) : Int), cieObj badCfg badCie 15 0 (badIs.map toInstr ++ [toInstr (.offset 16 ⟨1, 1⟩)]))]) :=
+  bad_length_short_cie badCfg env _ badCie 15 badIs (.offset 16 ⟨1, 1⟩) [9, 9] 0 0 0 [] (by decide) (Or.inr rfl)
+    (by decide +kernel) (by decide) (by decide) (by decide) rfl (by decide) (by decide) (by decide +kernel)
+    (by decide +kernel)
+
+/-- (5) a `.debug_frame` FDE alone whose CIE pointer is 0x1000; (6) an `.eh_frame` FDE at offset 0 whose distance
+    back is 0x20; (7) a version-1 CIE with augmentation string "eh" -/
+example (env : Env) :
+    parseEntries (cfiOf badCfg env (encLength true false 20 ++ (encNat true 4 0x1000 ++ (encPtr true 8 0 0x401000 ++ (encPtr true 8 0 0x20 ++ [])))))
+      24 = .error .elfParseError :=
+  bad_first_entry_stops_scan _ _ _ (by decide)
+    (bad_cie_pointer_past_data_fde badCfg env _ rfl false 20 0x1000 0x401000 0x20 [] 0 _ 0 [] (by decide +kernel) (by decide)
+      (by decide) (by decide) (by decide) (by decide) (by decide) rfl (by decide +kernel) rfl)
+
+example (env : Env) :
+    parseEntries (cfiOf { badCfg with eh := true } env (encLength true false 20 ++ (encNat true 4 0x20 ++ List.replicate 16 0)))
+      24 = .error .valueError :=
+  bad_first_entry_stops_scan _ _ _ (by decide)
+    (bad_cie_pointer_before_start_fde { badCfg with eh := true } env _ rfl false 20 0x20 (List.replicate 16 0) 0 _ 0 []
+      (by decide +kernel) (by decide) (by decide) (by decide) (by decide) (by decide) rfl (by decide) rfl)
+
+example (env : Env) :
+    parseEntries (cfiOf { badCfg with eh := true } env
+        (encLength true false 11 ++ cieHdrBytes true 4 0 1 [0x65, 0x68] 0 0 ⟨1, 1⟩ ⟨1, -8⟩ ⟨1, 16⟩ [0]))
+      15 = .error .assertion :=
+  bad_first_entry_stops_scan _ _ _ (by decide)
+    (bad_aug_not_z_cie { badCfg with eh := true } env _ false 11 1 0 0 [0x65, 0x68] ⟨1, 1⟩ ⟨1, -8⟩ ⟨1, 16⟩ [0] 0 _ 0 []
+      (by decide +kernel) (by decide) (by decide) (by decide) rfl (Or.inl rfl) (by decide) (by decide) (by decide)
+      (by decide) (by decide) (by decide) (by decide) (by decide) (by decide))
+
+example : (0x58 : UInt8) ≠ 0x7a ∧ (0x58 : UInt8) ≠ 0x4c ∧ (0x58 : UInt8) ≠ 0x52 ∧ (0x58 : UInt8) ≠ 0x53 ∧ (0x58 : UInt8) ≠ 0x50 := by
+  decide
+example : ([0x61, 0x72, 0x6d, 0x63, 0x63] : Bytes).isPrefixOf [0x65, 0x68] = false ∧ ([0x7a] : Bytes).isPrefixOf [0x65, 0x68] = false := by
+  decide
+
+/-! ### a malformed entry AFTER well-formed ones: `get_entries()` on the whole byte string
+
+  Proofs/CfiTail.lean carries the entry theorems over to data that continues after the encoded section
+  (`encodeSection sec ++ junk`).  `entries_exact_prefix`: the scan returns the section's entries and goes on with
+  whatever follows; `bad_entry_after_section`: if what follows is an entry that fails with `e`, `get_entries()` raises
+  `e`; the classes: `bad_*_after_section`. -/
+
+open PyElf.Proofs.CfiTail in
+/-- the scan over a well-formed section followed by ANY bytes: exactly the section's entries, then the scan of the
+    rest (with a cache that holds entries of the section only) -/
+theorem entries_exact_prefix (sec : Section) (env : Env) (hwf : sec.wf = true) (junk : Bytes)
+    (hsz : (encodeSection sec ++ junk).length < 2 ^ 63) :
+    ∃ cache' fuel, CacheInv sec cache' ∧
+      parseEntries (cfiOf sec env (encodeSection sec ++ junk)) (encodeSection sec ++ junk).length
+        = (parseEntriesLoop (cfiOf sec env (encodeSection sec ++ junk)) (encodeSection sec ++ junk).length
+            ((encodeSection sec ++ junk).length + 2) (fuel + 1) (encodeSection sec).length cache').map
+            (modelFrom sec 0 sec.entries ++ ·) :=
+  parseEntries_prefix sec env hwf junk hsz
+
+open PyElf.Proofs.CfiTail in
+/-- a failing entry after a well-formed section ends `get_entries()` with its error -/
+theorem bad_entry_after_section (sec : Section) (env : Env) (hwf : sec.wf = true) (junk : Bytes)
+    (hsz : (encodeSection sec ++ junk).length < 2 ^ 63) (hj : junk ≠ []) (e : Err)
+    (hbad : ∀ (cache : Cache), CacheInv sec cache →
+      parseEntryAt (cfiOf sec env (encodeSection sec ++ junk)) ((encodeSection sec ++ junk).length + 2)
+        ((encodeSection sec).length : Int) (encodeSection sec).length cache = .error e) :
+    parseEntries (cfiOf sec env (encodeSection sec ++ junk)) (encodeSection sec ++ junk).length = .error e :=
+  parseEntries_then_error sec env hwf junk hsz hj e hbad
+
+open PyElf.Proofs.CfiTail PyElf.Proofs.CfiBad in
+/-- unknown opcode in a CIE that follows a well-formed section: `get_entries()` raises DWARFError -/
+theorem bad_unknown_opcode_after_section (sec : Section) (env : Env) (hwf : sec.wf = true) (junk : Bytes)
+    (hsz : (encodeSection sec ++ junk).length < 2 ^ 63) (c : Cie) (L : Nat) (is : List Cfa) (op : Nat) (rest : Bytes)
+    (hw : cieHeaderWf sec c = true)
+    (hj : junk = encLength sec.le c.fmt64 L ++
+      cieHdrBytes sec.le (offSize c.fmt64) (cieIdv sec c) c.version (augString c.aug) c.addrSize c.segSize c.caf c.daf
+        c.ra (cieAugPart sec c ++ (encInstrs sec.le sec.asz is ++ (byte op ++ rest))))
+    (hlen : lenOk c.fmt64 L = true) (hLpos : 0 < L) (hwi : ∀ i ∈ is, i.wf sec.asz = true)
+    (hend : cieInstrStart sec c (encodeSection sec).length + (encInstrs sec.le sec.asz is).length
+      < (encodeSection sec).length + L + ilfs c.fmt64)
+    (hlt : op < 0x40) (hunk : op ∉ knownExt) :
+    parseEntries (cfiOf sec env (encodeSection sec ++ junk)) (encodeSection sec ++ junk).length = .error .dwarfError :=
+  tail_unknown_opcode sec env hwf junk hsz c L is op rest hw hj hlen hLpos hwi hend hlt hunk
+
+open PyElf.Proofs.CfiTail PyElf.Proofs.CfiBad in
+/-- the data ends inside an instruction of a CIE that follows a well-formed section: ELFParseError -/
+theorem bad_truncated_instr_after_section (sec : Section) (env : Env) (hwf : sec.wf = true) (junk : Bytes)
+    (hsz : (encodeSection sec ++ junk).length < 2 ^ 63) (c : Cie) (L : Nat) (is : List Cfa) (i : Cfa) (k : Nat)
+    (hw : cieHeaderWf sec c = true)
+    (hj : junk = encLength sec.le c.fmt64 L ++
+      cieHdrBytes sec.le (offSize c.fmt64) (cieIdv sec c) c.version (augString c.aug) c.addrSize c.segSize c.caf c.daf
+        c.ra (cieAugPart sec c ++ (encInstrs sec.le sec.asz is ++ (i.enc sec.le sec.asz).take k)))
+    (hlen : lenOk c.fmt64 L = true) (hLpos : 0 < L) (hwi : ∀ j ∈ is, j.wf sec.asz = true) (hi : i.wf sec.asz = true)
+    (hk1 : 1 ≤ k) (hk : k < (i.enc sec.le sec.asz).length)
+    (hend : cieInstrStart sec c (encodeSection sec).length + (encInstrs sec.le sec.asz is).length
+      < (encodeSection sec).length + L + ilfs c.fmt64) :
+    parseEntries (cfiOf sec env (encodeSection sec ++ junk)) (encodeSection sec ++ junk).length = .error .elfParseError :=
+  tail_instr_cut sec env hwf junk hsz c L is i k hw hj hlen hLpos hwi hi hk1 hk hend
+
+open PyElf.Proofs.CfiTail PyElf.Proofs.CfiBad in
+/-- the last CIE's length field claims more than the data holds: ELFParseError -/
+theorem bad_length_past_data_after_section (sec : Section) (env : Env) (hwf : sec.wf = true) (junk : Bytes)
+    (hsz : (encodeSection sec ++ junk).length < 2 ^ 63) (c : Cie) (L : Nat) (is : List Cfa)
+    (hw : cieHeaderWf sec c = true)
+    (hj : junk = encLength sec.le c.fmt64 L ++
+      cieHdrBytes sec.le (offSize c.fmt64) (cieIdv sec c) c.version (augString c.aug) c.addrSize c.segSize c.caf c.daf
+        c.ra (cieAugPart sec c ++ encInstrs sec.le sec.asz is))
+    (hlen : lenOk c.fmt64 L = true) (hLpos : 0 < L) (hwi : ∀ j ∈ is, j.wf sec.asz = true)
+    (hend : (encodeSection sec ++ junk).length < (encodeSection sec).length + L + ilfs c.fmt64) :
+    parseEntries (cfiOf sec env (encodeSection sec ++ junk)) (encodeSection sec ++ junk).length = .error .elfParseError :=
+  tail_length_past_data sec env hwf junk hsz c L is hw hj hlen hLpos hwi hend
+
+open PyElf.Proofs.CfiTail PyElf.Proofs.CfiBad in
+/-- a CIE with an augmentation string outside the 'z' / 'armcc' families after a well-formed section: AssertionError -/
+theorem bad_aug_not_z_after_section (sec : Section) (env : Env) (hwf : sec.wf = true) (junk : Bytes)
+    (hsz : (encodeSection sec ++ junk).length < 2 ^ 63) (fmt64 : Bool) (L ver a sg : Nat) (augB : Bytes) (caf : ULeb)
+    (daf : SLeb) (ra : ULeb) (tail : Bytes)
+    (hj : junk = encLength sec.le fmt64 L ++
+      cieHdrBytes sec.le (offSize fmt64) (if sec.eh then 0 else 256 ^ offSize fmt64 - 1) ver augB a sg caf daf ra tail)
+    (hlen : lenOk fmt64 L = true) (hLpos : 0 < L)
+    (hver : ver = 1 ∨ ver = 3 ∨ ver = 4) (haug0 : ∀ b ∈ augB, b ≠ 0)
+    (ha : 4 ≤ ver → a < 256) (hs : 4 ≤ ver → sg < 256) (hcaf : caf.wf = true) (hdaf : daf.wf = true)
+    (hra : if ver = 1 then ra.v < 256 else ra.wf = true)
+    (hne : augB ≠ []) (harm : ([0x61, 0x72, 0x6d, 0x63, 0x63] : Bytes).isPrefixOf augB = false)
+    (hz : ([0x7a] : Bytes).isPrefixOf augB = false) :
+    parseEntries (cfiOf sec env (encodeSection sec ++ junk)) (encodeSection sec ++ junk).length = .error .assertion :=
+  tail_bad_aug sec env hwf junk hsz fmt64 L ver a sg augB caf daf ra tail hj hlen hLpos hver haug0 ha hs hcaf hdaf hra hne
+    harm hz
+
+open PyElf.Proofs.CfiTail PyElf.Proofs.CfiBad in
+/-- a `.debug_frame` FDE after a well-formed section whose CIE pointer designates an offset at or beyond the end of
+    the data: ELFParseError -/
+theorem bad_cie_pointer_past_data_after_section (sec : Section) (env : Env) (hwf : sec.wf = true) (junk : Bytes)
+    (hsz : (encodeSection sec ++ junk).length < 2 ^ 63) (heh : sec.eh = false) (fmt64 : Bool) (L k : Nat)
+    (loc range : Int) (tail : Bytes)
+    (hj : junk = encLength sec.le fmt64 L ++ (encNat sec.le (offSize fmt64) k ++
+      (encPtr sec.le sec.asz 0 loc ++ (encPtr sec.le sec.asz 0 range ++ tail))))
+    (hlen : lenOk fmt64 L = true) (hLpos : 0 < L) (hk : k < 256 ^ offSize fmt64 - 1)
+    (hfl : ptrFits sec.asz 0 loc = true) (hfr : ptrFits sec.asz 0 range = true)
+    (hpast : (encodeSection sec ++ junk).length ≤ k) :
+    parseEntries (cfiOf sec env (encodeSection sec ++ junk)) (encodeSection sec ++ junk).length = .error .elfParseError :=
+  tail_fde_ptr_past_data sec env hwf junk hsz heh fmt64 L k loc range tail hj hlen hLpos hk hfl hfr hpast
+
+open PyElf.Proofs.CfiTail PyElf.Proofs.CfiBad in
+/-- an `.eh_frame` FDE after a well-formed section whose distance back reaches before the start: ValueError -/
+theorem bad_cie_pointer_before_start_after_section (sec : Section) (env : Env) (hwf : sec.wf = true) (junk : Bytes)
+    (hsz : (encodeSection sec ++ junk).length < 2 ^ 63) (heh : sec.eh = true) (fmt64 : Bool) (L cp : Nat) (rest : Bytes)
+    (hj : junk = encLength sec.le fmt64 L ++ (encNat sec.le (offSize fmt64) cp ++ rest))
+    (hlen : lenOk fmt64 L = true) (hLpos : 0 < L) (hcp : cp < 256 ^ offSize fmt64) (hcp0 : cp ≠ 0)
+    (hneg : (encodeSection sec).length + offSize fmt64 < cp) :
+    parseEntries (cfiOf sec env (encodeSection sec ++ junk)) (encodeSection sec ++ junk).length = .error .valueError :=
+  tail_fde_ptr_before_start sec env hwf junk hsz heh fmt64 L cp rest hj hlen hLpos hcp hcp0 hneg
+
+/-- non-vacuity: `exSec` (FDE before its CIE) followed by the CIE with the unknown opcode 0x3f; `exEh` followed by an
+    FDE whose distance back is 0x1000 -/
+example (env : Env) :
+    parseEntries (cfiOf exSec env (encodeSection exSec ++ badData 16 (encInstrs true 8 badIs ++ (byte 0x3f ++ [0, 0]))))
+      (encodeSection exSec ++ badData 16 (encInstrs true 8 badIs ++ (byte 0x3f ++ [0, 0]))).length = .error .dwarfError :=
+  bad_unknown_opcode_after_section exSec env (by decide) _ (by decide +kernel) badCie 16 badIs 0x3f [0, 0] (by decide)
+    (by decide +kernel) (by decide) (by decide) (by decide) (by decide +kernel) (by decide) (by decide)
+
+example (env : Env) :
+    parseEntries (cfiOf exEh env (encodeSection exEh ++ (encLength true false 20 ++ (encNat true 4 0x1000 ++ List.replicate 16 0))))
+      (encodeSection exEh ++ (encLength true false 20 ++ (encNat true 4 0x1000 ++ List.replicate 16 0))).length
+      = .error .valueError :=
+  bad_cie_pointer_before_start_after_section exEh env (by decide +kernel) _ (by decide +kernel) rfl false 20 0x1000
+    (List.replicate 16 0) rfl (by decide) (by decide) (by decide) (by decide) (by decide +kernel)
+
+/-! ### the boundary `eh-set-loc-encoding` (known finding; outside `Section.wf`)
+
+  LSB / GNU unwinder: in `.eh_frame` the operand of DW_CFA_set_loc is a pointer encoded with the CIE's FDE pointer
+  encoding (Spec/CFIEhSetLoc.lean: `encInstrEh`, `setLocTarget`).  pyelftools reads `the_Dwarf_target_addr`:
+  `asz` unsigned bytes, no pc-relative base — whatever the encoding (`set_loc_reads_target_addr`).  The two agree
+  exactly under plain absptr (`set_loc_eh_absptr`); `Section.wf` admits DW_CFA_set_loc in `.eh_frame` only there, and
+  `set_loc_class_iff_excluded` says the excluded class is precisely "`.eh_frame`, FDE encoding ≠ absptr, a set_loc
+  in the entry".  Inside the class: when the encoded pointer is shorter than an address the reader takes the
+  following bytes — the next instructions — as the rest of the address (`set_loc_eh_swallows`), which mis-splits the
+  stream: `set_loc_eh_missplit` is a proved counterexample under the encoding real `.eh_frame`s use
+  (0x1b = pcrel|sdata4): LSB prescribes four instructions, the reader returns one. -/
+
+open PyElf.Spec.C06 PyElf.Proofs.CfiSetLoc in
+/-- WHAT THE READER DOES with opcode 0x01, under every FDE pointer encoding: the next `asz` bytes, unsigned, as they
+    are (no pc-relative base added) -/
+theorem set_loc_reads_target_addr (le : Bool) (fmt asz ver : Nat) (env : Env) (pre bs rest : Bytes) (hn : bs.length = asz) :
+    parseInstr Spec.cfiTables (Spec.dwarfStructs ⟨le, fmt, asz, ver⟩) env (pre ++ (byte 1 ++ (bs ++ rest))) pre.length
+      = .ok (⟨1, [.int (decNat le bs)]⟩, pre.length + 1 + asz) :=
+  parseInstr_set_loc (instrStructs_spec le fmt asz ver) env _ _ bs rest (List.drop_left' rfl) hn
+
+open PyElf.Spec.C06 PyElf.Proofs.CfiSetLoc in
+/-- WHAT THE LSB PRESCRIBES coincides with DWARF (hence with the reader) exactly under plain absptr -/
+theorem set_loc_eh_absptr (le : Bool) (asz : Nat) (is : List Cfa) : encInstrsEh le asz 0 is = encInstrs le asz is := by
+  unfold encInstrsEh encInstrs
+  congr 1
+  funext i
+  cases i <;> simp [encInstrEh, Cfa.enc, encPtr]
+
+open PyElf.Spec.C06 PyElf.Proofs.CfiSetLoc in
+/-- inside the class, an encoded pointer shorter than an address (udata2/4, sdata2/4, short LEB128 on a 64-bit
+    target, …): the reader takes the `x` that follows — the next instructions — as the rest of the address -/
+theorem set_loc_eh_swallows (le : Bool) (fmt asz ver enc : Nat) (env : Env) (pre x rest : Bytes) (stored : Nat)
+    (hx : (encPtr le asz (enc % 16) (stored : Int)).length + x.length = asz) :
+    parseInstr Spec.cfiTables (Spec.dwarfStructs ⟨le, fmt, asz, ver⟩) env
+        (pre ++ (encInstrEh le asz enc (.set_loc stored) ++ (x ++ rest))) pre.length
+      = .ok (⟨1, [.int (decNat le (encPtr le asz (enc % 16) (stored : Int) ++ x))]⟩, pre.length + 1 + asz) := by
+  have := set_loc_reads_target_addr le fmt asz ver env pre (encPtr le asz (enc % 16) (stored : Int) ++ x) rest
+    (by simpa using hx)
+  simpa [encInstrEh, List.append_assoc] using this
+
+open PyElf.Spec.C06 PyElf.Proofs.CfiSetLoc in
+/-- THE BOUNDARY: `Section.wf` (through `setLocOk`) excludes exactly the class -/
+theorem set_loc_class_iff_excluded (eh : Bool) (fdeEnc : Nat) (is : List Cfa) :
+    setLocOk eh fdeEnc is = false ↔ ehSetLocClass eh fdeEnc is :=
+  setLocOk_false_iff eh fdeEnc is
+
+open PyElf.Spec.C06 PyElf.Proofs.CfiSetLoc in
+/-- COUNTEREXAMPLE (the mis-split).  FDE encoding 0x1b (pcrel|sdata4), 64-bit little-endian target, the
+    LSB-conformant instruction stream of `set_loc +0x10; advance_loc 4; def_cfa_offset 16; nop` (9 bytes):
+    every instruction is well formed, the list is in the excluded class, LSB prescribes FOUR instructions the first
+    of which designates `address + field offset + 0x10` — the reader returns ONE instruction, a set_loc to
+    0x00100e4400000010 made of the operand and the three instructions after it. -/
+theorem set_loc_eh_missplit (env : Env) :
+    let is : List Cfa := [.set_loc 0x10, .advance_loc 4, .def_cfa_offset ⟨1, 16⟩, .nop]
+    let lsb := encInstrsEh true 8 0x1b is
+    parseInstructions Spec.cfiTables (Spec.dwarfStructs ⟨true, 32, 8, 2⟩) env lsb lsb.length (lsb.length + 1) 0
+        = .ok ([toInstr (.set_loc 0x00100e4400000010)], 9)
+      ∧ is.length = 4 ∧ (∀ i ∈ is, i.wf 8 = true) ∧ ehSetLocClass true 0x1b is
+      ∧ setLocTarget 0x1b 0x400000 0x31 0x10 = 0x400041 := by
+  intro is lsb
+  have hb : lsb = [] ++ encInstrs true 8 [.set_loc 0x00100e4400000010] ++ [] := by decide
+  have hl : lsb.length = ([] : Bytes).length + (encInstrs true 8 [.set_loc 0x00100e4400000010]).length := by decide
+  refine ⟨?_, rfl, by decide, ⟨rfl, by decide, 0x10, by decide⟩, by decide⟩
+  have := cfa_instrs_roundtrip true 32 8 2 env [] [] [.set_loc 0x00100e4400000010] (by decide) (lsb.length + 1) (by decide)
+  rw [← hb, ← hl] at this
+  exact this
+
+/-- such an entry makes the section ill-formed: `exEh` with a set_loc in the FDE of its `zPLR` CIE (FDE encoding 0x1b) -/
+example : ({ exEh with entries := exEh.entries.set 1 (Spec.Entry.fde ⟨false, 0, -0x200, 0x40, 0x3000, 2, [.set_loc 0x10, .nop]⟩) } :
+    Section).wf = false := by decide +kernel
+
+/-! non-vacuity of the whole-file hypotheses: an ELF64 little-endian description carrying BOTH example sections —
+    `.debug_frame` = `exSec` (FDE before its CIE) at 0x200, `.eh_frame` = `exEh` (zPLR, pc-relative pointers) at 0x300
+    with `sh_addr = 0x400000` — plainly, and with `.debug_frame` gABI-compressed behind an `Elf64_Chdr`.
+    (`ElfDesc.wfZ`, `observe`, `assemble` evaluate `Con.encodeRaw`/`decodeRaw`, which do not reduce in the kernel:
+    checked by the build-time `#guard`s, which also RUN the model end to end on the assembled bytes and compare
+    with `modelFrom`, i.e. evaluate the conclusion of `cfi_entries_of_file` / `eh_cfi_entries_of_file`.) -/
+
+private def nDebugFrame : Bytes := [0x2e, 0x64, 0x65, 0x62, 0x75, 0x67, 0x5f, 0x66, 0x72, 0x61, 0x6d, 0x65]
+private def nShstrtab : Bytes := [0x2e, 0x73, 0x68, 0x73, 0x74, 0x72, 0x74, 0x61, 0x62]
+
+private def exShdr (ty flags addr off size : Nat) : Fields :=
+  [("sh_type", .int ty), ("sh_flags", .int flags), ("sh_addr", .int addr), ("sh_offset", .int off), ("sh_size", .int size),
+   ("sh_link", .int 0), ("sh_info", .int 0), ("sh_addralign", .int 1), ("sh_entsize", .int 0)]
+
+private def exObsHdr (nm : Nat) (tyName : String) (flags addr off size : Nat) : Val :=
+  .record [("sh_name", .int nm), ("sh_type", .str tyName), ("sh_flags", .int flags), ("sh_addr", .int addr),
+    ("sh_offset", .int off), ("sh_size", .int size), ("sh_link", .int 0), ("sh_info", .int 0),
+    ("sh_addralign", .int 1), ("sh_entsize", .int 0)]
+
+/-- null, `.shstrtab` at 0x100, `.debug_frame` (body `dbg`, flags `flags`) at 0x200, `.eh_frame` (SHF_ALLOC,
+    `sh_addr = 0x400000`) at 0x300; section headers at 0x400 -/
+private def exFile (dbg : Bytes) (flags : Nat) : Spec.ElfDesc :=
+  { cls := 64, le := true, mclass := "EM_X86_64", solaris := false, core := false,
+    ehdr := [("EI_VERSION", .int 1), ("e_type", .int 1), ("e_machine", .int 62), ("e_version", .int 1), ("e_ehsize", .int 64)],
+    shoff := 0x400, phoff := 0, shentsize := 64, phentsize := 0,
+    sections := [⟨[], exShdr 0 0 0 0 0, none, 0⟩,
+                 ⟨nShstrtab, exShdr 3 0 0 0x100 34,
+                   some ([0] ++ nShstrtab ++ [0] ++ nDebugFrame ++ [0] ++ PyElf.Model.C11.nEhFrame ++ [0]), 1⟩,
+                 ⟨nDebugFrame, exShdr 1 flags 0 0x200 dbg.length, some dbg, 11⟩,
+                 ⟨PyElf.Model.C11.nEhFrame, exShdr 1 2 0x400000 0x300 126, some (encodeSection exEh), 24⟩],
+    segments := [], shstrndx := 1 }
+
+private def exFileObs (dbgLen flags : Nat) : Spec.ElfObs :=
+  ⟨.none, [("NullSection", [], exObsHdr 0 "SHT_NULL" 0 0 0 0),
+           ("StringTableSection", nShstrtab, exObsHdr 1 "SHT_STRTAB" 0 0 0x100 34),
+           ("Section", nDebugFrame, exObsHdr 11 "SHT_PROGBITS" flags 0 0x200 dbgLen),
+           ("Section", PyElf.Model.C11.nEhFrame, exObsHdr 24 "SHT_PROGBITS" 2 0x400000 0x300 126)], []⟩
+
+private def exFileContent : PyElf.Proofs.C11.Content := fun k =>
+  if k = "debug_frame_sec" then some (encodeSection exSec, exSec.address)
+  else if k = "eh_frame_sec" then some (encodeSection exEh, exEh.address) else none
+
+theorem exSec_len : (encodeSection exSec).length = 59 := by decide +kernel
+theorem exEh_len : (encodeSection exEh).length = 126 := by decide +kernel
+
+open PyElf.Model.C11 PyElf.Proofs.C11 PyElf.Spec.C11 in
+/-- both sections stored plainly -/
+example : HoldsD sectionNames (fun _ x => x) (exFile (encodeSection exSec) 0) (exFileObs 59 0) false exFileContent
+    Enc.isPlain := by
+  intro kn hk
+  simp only [sectionNames, List.mem_cons, List.not_mem_nil, or_false] at hk
+  rcases hk with rfl | rfl | rfl | rfl | rfl | rfl | rfl | rfl | rfl | rfl | rfl | rfl | rfl | rfl | rfl | rfl | rfl | rfl | rfl
+  case inr.inr.inr.inr.inr.inl =>
+    refine ⟨2, _, _, .plain, 0x200, by decide +kernel, rfl, rfl, Or.inl rfl, ?_, by decide +kernel, trivial⟩
+    refine ⟨.str "SHT_PROGBITS", 0, rfl, rfl, rfl, rfl, ?_, rfl, rfl, ?_, by simp [Enc.ok]⟩
+    · show Val.getNat _ "sh_size" = .ok (encodeSection exSec).length
+      rw [exSec_len]; rfl
+    · show 0x200 + (encodeSection exSec).length < 2 ^ 63
+      rw [exSec_len]; decide
+  case inr.inr.inr.inr.inr.inr.inr.inr.inr.inr.inr.inr.inr.inr.inr.inr.inr.inr =>
+    refine ⟨3, _, _, .plain, 0x300, by decide +kernel, rfl, rfl, Or.inl rfl, ?_, by decide +kernel, trivial⟩
+    refine ⟨.str "SHT_PROGBITS", 2, rfl, rfl, rfl, rfl, ?_, rfl, rfl, ?_, by simp [Enc.ok]⟩
+    · show Val.getNat _ "sh_size" = .ok (encodeSection exEh).length
+      rw [exEh_len]; rfl
+    · show 0x300 + (encodeSection exEh).length < 2 ^ 63
+      rw [exEh_len]; decide
+  all_goals (simp only [exFileContent, String.reduceEq, if_false]; decide +kernel)
+
+theorem exSec_gabi_len : (PyElf.Spec.C11.gabiBody 64 true 59 1 (encodeSection exSec)).length = 83 := by decide +kernel
+
+open PyElf.Model.C11 PyElf.Proofs.C11 PyElf.Spec.C11 in
+/-- `.debug_frame` SHF_COMPRESSED behind an `Elf64_Chdr`, `.eh_frame` plain -/
+example : HoldsD sectionNames (fun _ x => x) (exFile (gabiBody 64 true 59 1 (encodeSection exSec)) 0x800)
+    (exFileObs 83 0x800) false exFileContent Enc.isPlainOrGabi := by
+  intro kn hk
+  simp only [sectionNames, List.mem_cons, List.not_mem_nil, or_false] at hk
+  rcases hk with rfl | rfl | rfl | rfl | rfl | rfl | rfl | rfl | rfl | rfl | rfl | rfl | rfl | rfl | rfl | rfl | rfl | rfl | rfl
+  case inr.inr.inr.inr.inr.inl =>
+    refine ⟨2, _, _, .gabi 6 1, 0x200, by decide +kernel, rfl, rfl, Or.inl rfl, ?_, by decide +kernel, trivial⟩
+    have hb : ∀ b fl, Enc.body (fun _ x => x) (exFile b fl).cls (exFile b fl).le (encodeSection exSec) (.gabi 6 1)
+        = gabiBody 64 true 59 1 (encodeSection exSec) := by
+      intro b fl; simp only [Enc.body, exSec_len, exFile]
+    refine ⟨.str "SHT_PROGBITS", 0x800, rfl, rfl, rfl, rfl, ?_, rfl, ?_, ?_, ?_⟩
+    · rw [hb, exSec_gabi_len]; rfl
+    · rw [hb]
+    · rw [hb, exSec_gabi_len]; decide
+    · simp [Enc.ok, exSec_len, exFile]
+  case inr.inr.inr.inr.inr.inr.inr.inr.inr.inr.inr.inr.inr.inr.inr.inr.inr.inr =>
+    refine ⟨3, _, _, .plain, 0x300, by decide +kernel, rfl, rfl, Or.inl rfl, ?_, by decide +kernel, trivial⟩
+    refine ⟨.str "SHT_PROGBITS", 2, rfl, rfl, rfl, rfl, ?_, rfl, rfl, ?_, by simp [Enc.ok]⟩
+    · show Val.getNat _ "sh_size" = .ok (encodeSection exEh).length
+      rw [exEh_len]; rfl
+    · show 0x300 + (encodeSection exEh).length < 2 ^ 63
+      rw [exEh_len]; decide
+  all_goals (simp only [exFileContent, String.reduceEq, if_false]; decide +kernel)
+
+/-- the standards-side parameters (the "stored" coder as zlib): `SpecParams`, `ZlibOk`, `StructsOk`, keywords -/
+private def exP : PyElf.Model.C11.Params :=
+  ⟨elfEnv, C01.specStructs, C01.specMachineClass, Reloc.machineArchOf, fun c => some (Spec.dwarfStructs c),
+   PyElf.Spec.C11.sectionNames, ⟨fun d k => some (if k = 0 then d else d.take k), fun _ => 0⟩⟩
+
+example : C11.SpecParams exP ∧ PyElf.Proofs.C11.ZlibOk exP.X (fun _ x => x) ∧ PyElf.Proofs.CfiFile.StructsOk exP true 8 ∧
+    "debug_frame_sec" ∈ exP.names.map (·.1) ∧ "eh_frame_sec" ∈ exP.names.map (·.1) ∧
+    exSec.le = (exFile [] 0).le ∧ exSec.asz = (exFile [] 0).cls / 8 ∧ exEh.le = (exFile [] 0).le ∧
+    exEh.asz = (exFile [] 0).cls / 8 :=
+  ⟨⟨rfl, rfl⟩, ⟨fun _ _ _ => rfl⟩, fun _ _ => rfl, by decide, by decide, rfl, rfl, rfl, rfl⟩
+
+private def sameEntries (a b : List Model.Entry) : Bool :=
+  toString (repr (a.map (Model.Entry.toVal Spec.cfiTables))) == toString (repr (b.map (Model.Entry.toVal Spec.cfiTables)))
+
+/-- the description is well formed, assembles, is observed as `exFileObs` says, and the accessors on the
+    assembled bytes yield `modelFrom` of the two CFI descriptions -/
+private def exFileOk (dbg : Bytes) (flags : Nat) : Bool :=
+  let d := exFile dbg flags
+  match d.assemble 0 with
+  | none => false
+  | some bytes =>
+    d.wfZ elfEnv &&
+    (match d.observe elfEnv with
+     | .ok o => o.sections.length == 4 &&
+         (o.sections.zip (exFileObs dbg.length flags).sections).all fun (x, y) =>
+           x.1 == y.1 && x.2.1 == y.2.1 && toString (repr x.2.2) == toString (repr y.2.2)
+     | .error _ => false) &&
+    (match PyElf.Model.C06.fileCfiEntries Spec.cfiTables exP 1 none bytes true true,
+           PyElf.Model.C06.fileEhCfiEntries Spec.cfiTables exP 1 none bytes true true,
+           PyElf.Model.C06.fileHasCFI exP 1 none bytes true true with
+     | .ok a, .ok b, .ok true =>
+       sameEntries a (modelFrom exSec 0 exSec.entries) && sameEntries b (modelFrom exEh 0 exEh.entries) && a.length == 2
+         && b.length == 6
+     | _, _, _ => false)
+#guard exFileOk (encodeSection exSec) 0
+#guard exFileOk (PyElf.Spec.C11.gabiBody 64 true 59 1 (encodeSection exSec)) 0x800
+
+/-! the legacy framing: a file with `.zdebug_info`, whose `.debug_frame` content is stored as `.zdebug_frame`
+    (`"ZLIB"` + 8-byte big-endian size + deflate stream), `.eh_frame` plain -/
+
+private def nZdebugFrame : Bytes := PyElf.Model.C11.zName nDebugFrame
+
+private def exFileZ : Spec.ElfDesc :=
+  { cls := 64, le := true, mclass := "EM_X86_64", solaris := false, core := false,
+    ehdr := [("EI_VERSION", .int 1), ("e_type", .int 1), ("e_machine", .int 62), ("e_version", .int 1), ("e_ehsize", .int 64)],
+    shoff := 0x400, phoff := 0, shentsize := 64, phentsize := 0,
+    sections := [⟨[], exShdr 0 0 0 0 0, none, 0⟩,
+                 ⟨nShstrtab, exShdr 3 0 0 0x100 48,
+                   some ([0] ++ nShstrtab ++ [0] ++ PyElf.Model.C11.nZdebugInfo ++ [0] ++ nZdebugFrame ++ [0]
+                     ++ PyElf.Model.C11.nEhFrame ++ [0]), 1⟩,
+                 ⟨PyElf.Model.C11.nZdebugInfo, exShdr 1 0 0 0x140 15, some (PyElf.Spec.C11.zdebugBody 3 [1, 2, 3]), 11⟩,
+                 ⟨nZdebugFrame, exShdr 1 0 0 0x200 71, some (PyElf.Spec.C11.zdebugBody 59 (encodeSection exSec)), 24⟩,
+                 ⟨PyElf.Model.C11.nEhFrame, exShdr 1 2 0x400000 0x300 126, some (encodeSection exEh), 38⟩],
+    segments := [], shstrndx := 1 }
+
+private def exFileZObs : Spec.ElfObs :=
+  ⟨.none, [("NullSection", [], exObsHdr 0 "SHT_NULL" 0 0 0 0),
+           ("StringTableSection", nShstrtab, exObsHdr 1 "SHT_STRTAB" 0 0 0x100 48),
+           ("Section", PyElf.Model.C11.nZdebugInfo, exObsHdr 11 "SHT_PROGBITS" 0 0 0x140 15),
+           ("Section", nZdebugFrame, exObsHdr 24 "SHT_PROGBITS" 0 0 0x200 71),
+           ("Section", PyElf.Model.C11.nEhFrame, exObsHdr 38 "SHT_PROGBITS" 2 0x400000 0x300 126)], []⟩
+
+private def exFileZContent : PyElf.Proofs.C11.Content := fun k =>
+  if k = "debug_info_sec" then some ([1, 2, 3], 0)
+  else if k = "debug_frame_sec" then some (encodeSection exSec, exSec.address)
+  else if k = "eh_frame_sec" then some (encodeSection exEh, exEh.address) else none
+
+theorem exSec_z_len : (PyElf.Spec.C11.zdebugBody 59 (encodeSection exSec)).length = 71 := by decide +kernel
+
+open PyElf.Model.C11 PyElf.Proofs.C11 PyElf.Spec.C11 in
+example : HoldsD sectionNames (fun _ x => x) exFileZ exFileZObs false exFileZContent Enc.isPlainOrZdebug := by
+  intro kn hk
+  simp only [sectionNames, List.mem_cons, List.not_mem_nil, or_false] at hk
+  rcases hk with rfl | rfl | rfl | rfl | rfl | rfl | rfl | rfl | rfl | rfl | rfl | rfl | rfl | rfl | rfl | rfl | rfl | rfl | rfl
+  case inl =>
+    refine ⟨2, _, _, .zdebug 6, 0x140, by decide +kernel, rfl, rfl, Or.inl rfl, ?_, by decide +kernel, trivial⟩
+    exact ⟨.str "SHT_PROGBITS", 0, rfl, rfl, rfl, rfl, rfl, rfl, rfl, by decide, by simp [Enc.ok]⟩
+  case inr.inr.inr.inr.inr.inl =>
+    refine ⟨3, _, _, .zdebug 6, 0x200, by decide +kernel, rfl, rfl, Or.inl rfl, ?_, by decide +kernel, trivial⟩
+    have hb : Enc.body (fun _ x => x) exFileZ.cls exFileZ.le (encodeSection exSec) (.zdebug 6)
+        = zdebugBody 59 (encodeSection exSec) := by
+      simp only [Enc.body, exSec_len]
+    refine ⟨.str "SHT_PROGBITS", 0, rfl, rfl, rfl, rfl, ?_, rfl, ?_, ?_, ?_⟩
+    · rw [hb, exSec_z_len]; rfl
+    · rw [hb]
+    · rw [hb, exSec_z_len]; decide
+    · simp [Enc.ok, exSec_len]
+  case inr.inr.inr.inr.inr.inr.inr.inr.inr.inr.inr.inr.inr.inr.inr.inr.inr.inr =>
+    refine ⟨4, _, _, .plain, 0x300, by decide +kernel, rfl, rfl, Or.inl rfl, ?_, by decide +kernel, trivial⟩
+    refine ⟨.str "SHT_PROGBITS", 2, rfl, rfl, rfl, rfl, ?_, rfl, rfl, ?_, by simp [Enc.ok]⟩
+    · show Val.getNat _ "sh_size" = .ok (encodeSection exEh).length
+      rw [exEh_len]; rfl
+    · show 0x300 + (encodeSection exEh).length < 2 ^ 63
+      rw [exEh_len]; decide
+  all_goals (simp only [exFileZContent, String.reduceEq, if_false]; decide +kernel)
+
+private def exFileZOk : Bool :=
+  match exFileZ.assemble 0 with
+  | none => false
+  | some bytes =>
+    exFileZ.wfZ elfEnv &&
+    (match exFileZ.observe elfEnv with
+     | .ok o => o.sections.length == 5 &&
+         (o.sections.zip exFileZObs.sections).all fun (x, y) =>
+           x.1 == y.1 && x.2.1 == y.2.1 && toString (repr x.2.2) == toString (repr y.2.2)
+     | .error _ => false) &&
+    (match PyElf.Model.C06.fileCfiEntries Spec.cfiTables exP 1 none bytes true true,
+           PyElf.Model.C06.fileEhCfiEntries Spec.cfiTables exP 1 none bytes true true,
+           PyElf.Model.C06.fileHasCFI exP 1 none bytes true true with
+     | .ok a, .ok b, .ok true =>
+       sameEntries a (modelFrom exSec 0 exSec.entries) && sameEntries b (modelFrom exEh 0 exEh.entries) && a.length == 2
+         && b.length == 6
+     | _, _, _ => false)
+#guard exFileZOk
 
 end PyElf.Props.C06
